@@ -377,14 +377,15 @@ Proof.
   eapply refused_unchanged_main; eassumption.
 Qed.
 
-(** StateSize is the exception: its only gate is the read key. *)
+(** StateSize used to be the exception (its only gate was the read key: finding
+    D36, repaired in /repo); it now reports that the location is disabled. *)
 Definition disabled_loc : loc :=
   fst (loc_add_fact (mkLoc (empty_state Indexed false) false 100) (mkCtx "" "") (mkEnv 1 "f" None) ""
                     (JObj [("!enabled", JStr "no")])).
 
-Lemma statesize_ignores_enabled_counterexample :
+Lemma statesize_reports_disabled_example :
   snd (enabled disabled_loc 2) = false /\
-  snd (loc_size disabled_loc (mkCtx "" "") (mkEnv 2 "f" None)) = Ok 1 /\
+  snd (loc_size disabled_loc (mkCtx "" "") (mkEnv 2 "f" None)) = Err E_disabled /\
   snd (loc_get_parents disabled_loc (mkCtx "" "") (mkEnv 2 "f" None)) = Err E_disabled.
 Proof. vm_compute. repeat split; reflexivity. Qed.
 
